@@ -76,6 +76,9 @@ pub struct Synth {
 	pub filter_delay_us: u64,
 	/// after the producers finished: stream rejected (or erroring) events until every expected event was delivered
 	pub starve_with: Option<Verdict>,
+	/// number of concurrent flood producers and whether they pause between events
+	pub flood_producers: usize,
+	pub flood_pause: bool,
 }
 
 #[derive(Clone, Debug)]
@@ -382,32 +385,44 @@ async fn drive(s: &Synth) -> History {
 
 	// optional flood of rejected / erroring events until everything expected was delivered
 	let flood_stop = Arc::new(AtomicBool::new(false));
-	let flood = s.starve_with.map(|v| {
-		let wx = wx.clone();
-		let sent = sent.clone();
-		let next_id = next_id.clone();
-		let stop = flood_stop.clone();
-		tokio::spawn(async move {
-			let mut n = 0u64;
-			let mut r = Rng::new(7);
-			while !stop.load(Ordering::SeqCst) {
-				let id = next_id.fetch_add(1, Ordering::SeqCst);
-				let t_before = mono_ns();
-				let ok = wx.send_event(make_event(id, Kind::Path, v, false), Priority::Normal).await.is_ok();
-				let t_after = mono_ns();
-				sent.lock().unwrap().push(Sent { id, prio: Priority::Normal, verdict: v, kind: Kind::Path, t_before, t_after, ok, flood: true });
-				n += 1;
-				tokio::time::sleep(Duration::from_micros(200 + r.below(1800))).await;
-				if !ok {
-					break;
-				}
-			}
-			n
-		})
-	});
+	let flood: Vec<_> = match s.starve_with {
+		None => vec![],
+		Some(v) => (0..s.flood_producers.max(1))
+			.map(|fi| {
+				let wx = wx.clone();
+				let sent = sent.clone();
+				let next_id = next_id.clone();
+				let stop = flood_stop.clone();
+				let pause = s.flood_pause;
+				tokio::spawn(async move {
+					let mut n = 0u64;
+					let mut r = Rng::new(7 + fi as u64);
+					while !stop.load(Ordering::SeqCst) {
+						let id = next_id.fetch_add(1, Ordering::SeqCst);
+						let t_before = mono_ns();
+						let ok = wx.send_event(make_event(id, Kind::Path, v, false), Priority::Normal).await.is_ok();
+						let t_after = mono_ns();
+						if n < 2000 {
+							sent.lock().unwrap().push(Sent { id, prio: Priority::Normal, verdict: v, kind: Kind::Path, t_before, t_after, ok, flood: true });
+						}
+						n += 1;
+						if pause {
+							tokio::time::sleep(Duration::from_micros(200 + r.below(1800))).await;
+						} else {
+							tokio::task::yield_now().await;
+						}
+						if !ok {
+							break;
+						}
+					}
+					n
+				})
+			})
+			.collect(),
+	};
 
 	// bounded progress: wait for every expected delivery (cap), while main is alive
-	let cap = Duration::from_millis(s.throttle_ms.max(s.throttle_changes.iter().map(|c| c.1).max().unwrap_or(0)) * 3 + 10_000);
+	let cap = Duration::from_millis(s.throttle_ms.max(s.throttle_changes.iter().map(|c| c.1).max().unwrap_or(0)) * 3 + if s.starve_with.is_some() { 3_000 } else { 10_000 });
 	let wait_start = std::time::Instant::now();
 	loop {
 		let done = {
@@ -423,10 +438,12 @@ async fn drive(s: &Synth) -> History {
 		}
 		tokio::time::sleep(Duration::from_millis(1)).await;
 	}
-	if let Some(f) = flood {
-		hist.flood_running_at_delivery = !f.is_finished();
+	if !flood.is_empty() {
+		hist.flood_running_at_delivery = flood.iter().all(|f| !f.is_finished());
 		flood_stop.store(true, Ordering::SeqCst);
-		hist.flood_sent = f.await.unwrap_or(0);
+		for f in flood {
+			hist.flood_sent += f.await.unwrap_or(0);
+		}
 	}
 	changer.abort();
 	// late duplicates would show up now
@@ -510,6 +527,8 @@ pub fn gen_synth(rng: &mut Rng, with_errors: bool, small: bool) -> Synth {
 		err: ErrBehaviour::Ignore,
 		filter_delay_us: if rng.chance(1, 8) { 200 } else { 0 },
 		starve_with: None,
+		flood_producers: 1,
+		flood_pause: true,
 	}
 }
 
@@ -517,7 +536,7 @@ pub fn synth_json(s: &Synth) -> Value {
 	json!({
 		"event_channel_size": s.chan, "error_channel_size": s.err_chan, "throttle_ms": s.throttle_ms,
 		"throttle_changes": s.throttle_changes, "handler": format!("{:?}", s.handler), "threads": s.threads,
-		"error_handler": format!("{:?}", s.err), "filter_delay_us": s.filter_delay_us, "starve_with": format!("{:?}", s.starve_with),
+		"error_handler": format!("{:?}", s.err), "filter_delay_us": s.filter_delay_us, "starve_with": format!("{:?}", s.starve_with), "flood_producers": s.flood_producers, "flood_pause": s.flood_pause,
 		"producers": s.producers.iter().map(|p| p.iter().map(|e| json!([format!("{:?}", e.prio), format!("{:?}", e.kind), format!("{:?}", e.verdict), e.gap_us])).collect::<Vec<_>>()).collect::<Vec<_>>(),
 	})
 }
